@@ -6,6 +6,10 @@ ALL = ["C%02d" % i for i in range(1, 21)]
 
 # property -> (level, design_ref, engine, technique, level text, level note)
 CLAIMED = {
+ "C16": ("model_checking", "DESIGN.md §2 C16", "vp",
+   "preemption-bounded exhaustive exploration of producer histories against libqb's own logging thread run as a coroutine (TSan-ABI scheduling points in lib/log_thread.c, wrapped pthread/semaphore/lock calls)",
+   "Every legal producer history up to the stated depth over init, custom_open, set-threaded, thread_start, enable/disable, reconfigure, log, close, fini and re-init is executed with the real logging thread as a second coroutine; every interleaving up to the preemption bound at each memory access of lib/log_thread.c and each synchronisation call is explored, one forked process per execution. Oracle: each message written exactly once, in order, by the time qb_log_fini returns (or accounted for by the 'messages lost' report in the 130 x 4000-byte burst runs), no deadlock, no sanitizer report, second init/start/log/fini cycle equal to the first.",
+   "Preemption bound 1 (depth 8) and 2 (depth 6) in quick; sequentially consistent scheduler; single producer; logging on a THREADED target before qb_log_thread_start is outside the alphabet."),
  "C19": ("model_checking", "DESIGN.md §2 C19", "vp",
    "bounded-exhaustive history enumeration (sequential) plus stateful exhaustive interleaving exploration of the real array code at memory-access granularity (TSan-ABI scheduling points)",
    "Sequential: every history up to the stated depth of index/grow calls over boundary indices/sizes, for all element sizes x initial sizes x auto-grow settings, against address-stability/disjointness/zero-init/persistence/error-code oracles. Concurrent: lib/array.c compiled with the TSan ABI; 2-3 coroutines run all combinations of index/grow scripts that force bin allocation and bin-table reallocation; ALL interleavings at every access, allocator call and lock operation are explored, merged on an exact, address-canonical key of the unit's heap; every instrumented access is checked against the ASan shadow so a read of a freed bin table is reported.",
